@@ -1028,7 +1028,9 @@ class SystemSuite(Suite):
         h = result.get("hist")
         if not h or case["sc"].get("local") or any(g.get("dryRun") for g in case["sc"]["groups"]):
             return {"op": "system.trace", "scn": {"n": 0, "blockers": [], "flags": [], "rc": [], "maxNodes": 1}, "events": []}
-        return {"op": "system.trace", "scn": h["scn"], "events": h["events"]}
+        # fault-free modes: replay through stepP (the extra guards collectedAll / roundDone of Model/SystemPlain.lean)
+        plain = case.get("mode") in ("plain", "busy") and not any(e["op"] in ("scancel", "markCanceled") or (e["op"] == "spawnSub" and e.get("isCancel")) for e in h["events"])
+        return {"op": "system.trace", "scn": h["scn"], "events": h["events"], "plain": plain}
 
     def agree(self, model, result):
         return not self.diff(model, result)
